@@ -278,6 +278,11 @@ fn methods_block(cfg: &Cfg, out: &mut Vec<String>) {
 				let mut fam: Vec<(String, Vec<In>)> = seqs(&al3, if big { 2 } else { d }).into_iter().enumerate().map(|(si, s)| (format!("#{si}"), s)).collect();
 				if !big {
 					fam.extend(seqs(&mx[..3], d + 1).into_iter().enumerate().map(|(si, s)| (format!("mixed#{si}"), s)));
+					// third family: the ends of the value range (sums and doublings overflow, halves underflow)
+					if sp.input == InKind::Value {
+						let ext: Vec<In> = [ValueType::MAX, -ValueType::MAX, ValueType::MAX * 0.75, ValueType::MIN_POSITIVE, 1.0].iter().map(|v| In::V(*v)).collect();
+						fam.extend(seqs(&ext, 3).into_iter().enumerate().map(|(si, s)| (format!("extreme#{si}"), s)));
+					}
 				}
 				for (si, s) in fam.iter() {
 					let id = format!("{}({}) v0={} {si}", sp.name, p.show(), v0.show());
